@@ -29,6 +29,17 @@ ALARM_S = 30
 def corrupt(text, rng):
     lines = text.split("\n")
     k = rng.random()
+    if rng.random() < 0.12:
+        # the syntax error on the FIRST line of the file (no line break in front of the offending token): a
+        # misspelt keyword after the first word, or a stray word in front of everything
+        if rng.random() < 0.5:
+            words = lines[0].split(" ")
+            if len(words) > 2:
+                words[2] = words[2] + "x"
+                lines[0] = " ".join(words)
+                return "\n".join(lines), "first-line-misspelt"
+        lines[0] = rng.choice(["iss ", "( ", "end ", "entity e iss "]) + lines[0]
+        return "\n".join(lines), "first-line-stray"
     if k < 0.3 and len(lines) > 2:
         n = rng.randrange(1, len(lines))
         return "\n".join(lines[:n]) + "\n", "truncate"
@@ -108,8 +119,16 @@ def _reject_job(args):
     except BaseException as e:  # noqa: BLE001
         out["outcome"] = "crash"
         # malformed input that ends in a traceback instead of a ClassifyError: one coarse site for
-        # the whole hand-written classifier (the innermost frame goes into the detail)
+        # the whole hand-written classifier (the innermost frame goes into the detail) ...
         out["fail"] = ("vsg/vhdlFile (classifier)", "malformedInput:" + type(e).__name__, "%s of %s: %r at %s" % (how, os.path.basename(path), e, sweep.crash_site(e)))
+        # ... except when the classifier HAD found the syntax error and crashed while building its message: the
+        # two raise sites of the productions (C19.progTable_raise_sites) are where "says so with a located message" lives
+        tb = e.__traceback__
+        while tb is not None:
+            if tb.tb_frame.f_code.co_name in ("print_error_message", "print_missing_error_message"):
+                out["fail"] = ("vhdlFile/utils.py:" + tb.tb_frame.f_code.co_name, "crashWhileReportingSyntaxError:" + type(e).__name__, out["fail"][2])
+                break
+            tb = tb.tb_next
     finally:
         out["wall"] = time.time() - t0
         if out["fail"]:
